@@ -34,6 +34,15 @@ def run(repo: Repo, tier: str, res: CheckResult, seed: int = 0) -> None:
     _shared_cache_rule(repo, res)
     from .. import genprog
     genprog.c14_checks(repo, tier, res, seed)
+    # the refusal of unlinked fields observed on compiler output (converter pipeline family and oracle shared with C13)
+    sub = CheckResult("C13")
+    genprog.c13_pipeline_checks(repo, tier, sub, seed)
+    res.evaluated("unlinked:pipeline-family", True)
+    for f in sub.findings:
+        if f.rule in ("PIPE.unlinked-accepted",):
+            res.add(Finding("C14", "UNLINKED.converter-produced", f.file, f.qualname, f.construct,
+                            "the real ConversionRetort produces a converter although a destination field has no source and no "
+                            "matching allow_unlinked_optional: " + f.message[:300], f.line))
     res.assumptions = list(ASSUMPTIONS)
 
 
@@ -227,7 +236,8 @@ def unlinked_fields(repo: Repo, res: CheckResult) -> None:
         raise AnalysisError("anchor vanished: ModelCoercerProvider._fetch_linkings")
     fn = ci.methods["_fetch_linkings"]
     inner = [d for d in fn.body if isinstance(d, ast.FunctionDef)
-             and any(isinstance(t, ast.Try) and "LinkingRequest" in norm(t) for t in d.body)]
+             and any(isinstance(t, ast.Try) and any(h.type is not None and "CannotProvide" in norm(h.type) for h in t.handlers)
+                     for t in d.body) and "LinkingRequest" in norm(d)]
     if len(inner) != 1:
         raise AnalysisError("_fetch_linkings: expected one nested function requesting the linking")
     f = inner[0]
